@@ -10,9 +10,21 @@ import (
 
 // TablesLazyMap: the "shape" of lazymap.go that the Coq model D2/LazyMap.v transcribes - for each of LoadOrStore, Load,
 // Store the sequence (in source order) of yield points and calls/returns:
-//   yield(N) -> N; (*sync.Map)(m).LoadOrStore/Load/Store -> 101/102/103; wg.Wait -> 104; wg.Done -> 105; wg.Add -> 106;
-//   f() -> 107; new(...) -> 108; m.LoadOrStore/Load/Store (the lazy map's own methods) -> 111/112/113; return -> 120;
-//   any other call -> 199.
+//
+//	yield(N) -> N; (*sync.Map)(m).LoadOrStore/Load/Store -> 101/102/103; wg.Wait -> 104; wg.Done -> 105; wg.Add -> 106;
+//	f() -> 107; new(...) -> 108; m.LoadOrStore/Load/Store (the lazy map's own methods) -> 111/112/113; return -> 120;
+//	any other call -> 199;
+//
+// and the facts about data flow and control flow the model relies on beyond that order:
+//
+//	an access X.v to the placeholder's result field (read or written) -> 109, so that "Wait, then read v.v" is visible
+//	(a `return` contributes 120 BEFORE its operands, as ast.Inspect visits them);
+//	a type assertion -> 122; `defer` -> 130 and `go` -> 131 (each before the call it defers / spawns);
+//	`if` -> 140 ID when the condition is a plain identifier, 141 ID when it is `!identifier`, 142 for anything else
+//	(emitted before the statement's init / condition / body); `x := true|false` / `x = true|false` -> 145 ID / 146 ID;
+//	ID = 1000 + the index of the identifier (the variable the parser resolved it to, not its name) among the identifiers
+//	so tracked in that function, in order of first use
+//	(so "the flag tested by Store is the flag its closure sets" is part of the shape).
 func lazymapShape(dir string) (string, string) {
 	p := load(dir)
 	var parts []string
@@ -27,10 +39,61 @@ func lazymapShape(dir string) (string, string) {
 		}
 		var codes []string
 		add := func(n int) { codes = append(codes, strconv.Itoa(n)) }
+		// identifiers are told apart by the declaration the parser resolved them to (a consistent renaming does not change
+		// the shape, two variables of the same name are two identifiers); unresolved ones by name
+		ids := map[interface{}]int{}
+		id := func(in *ast.Ident) int {
+			var k interface{} = in.Name
+			if in.Obj != nil {
+				k = in.Obj
+			}
+			if _, ok := ids[k]; !ok {
+				ids[k] = len(ids)
+			}
+			return 1000 + ids[k]
+		}
 		ast.Inspect(fd.Body, func(n ast.Node) bool {
 			switch x := n.(type) {
 			case *ast.ReturnStmt:
 				add(120)
+			case *ast.DeferStmt:
+				add(130)
+			case *ast.GoStmt:
+				add(131)
+			case *ast.TypeAssertExpr:
+				add(122)
+			case *ast.SelectorExpr:
+				if x.Sel.Name == "v" {
+					add(109)
+				}
+			case *ast.IfStmt:
+				switch c := x.Cond.(type) {
+				case *ast.Ident:
+					add(140)
+					add(id(c))
+				case *ast.UnaryExpr:
+					if in, ok := c.X.(*ast.Ident); ok && c.Op == token.NOT {
+						add(141)
+						add(id(in))
+					} else {
+						add(142)
+					}
+				default:
+					add(142)
+				}
+			case *ast.AssignStmt:
+				if len(x.Lhs) == 1 && len(x.Rhs) == 1 {
+					l, lok := x.Lhs[0].(*ast.Ident)
+					r, rok := x.Rhs[0].(*ast.Ident)
+					if lok && rok && (r.Name == "true" || r.Name == "false") {
+						if r.Name == "true" {
+							add(145)
+						} else {
+							add(146)
+						}
+						add(id(l))
+					}
+				}
 			case *ast.CallExpr:
 				switch fn := x.Fun.(type) {
 				case *ast.ParenExpr: // conversion (*sync.Map)(m)
